@@ -36,6 +36,9 @@ def components():
         out.append(("demod-soft", nm))
     for nm in ("total", "average", "papr", "per-antenna"):
         out.append(("constraint", nm))
+    for nm in ("total", "average", "papr"):
+        for lay in ("2x4", "4x2", "2x2x2", "complex", "complex2x2"):      # members that are themselves multi-dimensional / complex items
+            out.append(("constraint", f"{nm}@{lay}"))
     return out
 
 
@@ -171,11 +174,18 @@ def build(kind, nm):
         return (lambda y: dem(y, 0.5)), pool, 3, False
     if kind == "constraint":
         import kaira.constraints as KC
+        nm, _, lay = nm.partition("@")
         con = {"total": lambda: KC.TotalPowerConstraint(2.0), "average": lambda: KC.AveragePowerConstraint(0.5), "papr": lambda: KC.PAPRConstraint(2.0),
                "per-antenna": lambda: KC.PerAntennaPowerConstraint(uniform_power=1.5)}[nm]()
         base = [[0.0] * 8, [1e-4 * ((-1) ** i) for i in range(8)], [1e3 * (1 + i) for i in range(8)], [1.0, -2.0, 0.5, 3.0, -1.0, 0.25, 2.0, -0.5], [9.0] + [0.1] * 7]
         if nm == "per-antenna":
             pool = [torch.tensor(bv, dtype=f32).reshape(2, 4) for bv in base[1:]]       # (antennas, time)
+        elif lay in ("2x4", "4x2", "2x2x2"):
+            pool = [torch.tensor(bv, dtype=f32).reshape(*[int(t) for t in lay.split("x")]) for bv in base]
+        elif lay.startswith("complex"):
+            pool = [torch.complex(torch.tensor(bv[0::2], dtype=f32), torch.tensor(bv[1::2], dtype=f32)) for bv in base]
+            if lay == "complex2x2":
+                pool = [t.reshape(2, 2) for t in pool]
         else:
             pool = [torch.tensor(bv, dtype=f32) for bv in base]
         return (lambda x: con(x)), pool, 8, False
@@ -201,7 +211,7 @@ def execute(p, res):
     comp = f"{kind}:{nm}"
     f, pool, nin, exact = build(kind, nm)
     tol = 1e-5 if (kind.startswith("decoder") or kind == "constraint") else 1e-6
-    is_2d_member = pool[0].dim() == 2
+    is_2d_member = pool[0].dim() >= 2
     v = lambda layout, clause, d, foc=None: res.viol(comp, layout, clause, d, foc)  # noqa: E731
 
     def call(x):
